@@ -3,6 +3,7 @@ package scen
 import (
 	"fmt"
 	"regexp"
+	"sort"
 	"strconv"
 	"strings"
 	"time"
@@ -327,8 +328,10 @@ func (c c19) Execute(h *core.History) *core.Outcome {
 			viol = &core.Violation{Oracle: "register-modes-disagree", Event: i, Sig: fmt.Sprintf("C19|modes|%s|%s|%s", e.Tag, e.Key, e.Val),
 				Detail: fmt.Sprintf("attempt %q: registers on -> %s %v, registers off -> %s %v", e.Text, a.Class, truncAll(a.Errs), b.Class, truncAll(b.Errs))}
 		}
-		for name, want := range bound {
-			for mode, s := range map[string]*world.Session{"on": on, "off": off} {
+		for _, name := range sortedKeys(bound) {
+			want := bound[name]
+			for mi, s := range []*world.Session{on, off} {
+				mode := []string{"on", "off"}[mi]
 				got, _ := s.Observe(name)
 				if got != want && viol == nil {
 					viol = &core.Violation{Oracle: "constant-changed", Event: i, Sig: fmt.Sprintf("C19|changed|%s|%s|%s", e.Tag, e.Key, e.Val),
@@ -343,7 +346,7 @@ func (c c19) Execute(h *core.History) *core.Outcome {
 					firstKnown = viol
 				}
 				// re-synchronise both sessions: delete and re-bind every constant from its literal
-				for name := range bound {
+				for _, name := range sortedKeys(bound) {
 					for _, s := range []*world.Session{on, off} {
 						s.Input("del("+name+")", nil)
 						s.Input(name+" = "+lits[name], nil)
@@ -387,7 +390,8 @@ func (c19) execMonitor(h *core.History) *core.Outcome {
 			if si == 0 {
 				shape = append(shape, "monitor:"+r.Class)
 			}
-			for name, want := range bound[si] {
+			for _, name := range sortedKeys(bound[si]) {
+				want := bound[si][name]
 				if strings.Contains(src, "del("+name) {
 					delete(bound[si], name)
 					continue
@@ -471,4 +475,13 @@ func canonSizeClass(c string) string {
 		return "large-container"
 	}
 	return "small-container"
+}
+
+func sortedKeys(m map[string]string) []string {
+	ks := make([]string, 0, len(m))
+	for k := range m {
+		ks = append(ks, k)
+	}
+	sort.Strings(ks)
+	return ks
 }
